@@ -282,6 +282,13 @@ class Runner:
                 r_calls = '|'.join(show_nats(cl) for cl in li['calls']) if li['calls'] else '-'
                 self.res.bump('import_calls_compared')
                 self.res.bump(f'import_calls.{min(len(li["calls"]), 4)}{"+" if len(li["calls"]) > 4 else ""}')
+                for cl in li['calls']:
+                    tot = sum(self.pool.size(x) for x in cl)
+                    if tot > li['budget'] and not (len(cl) == 1 and self.pool.size(cl[0]) > li['budget']):
+                        for prop_ in ('C18', 'C14'):
+                            self._fail(prop_, 'import-batch-over-budget', f'import_objects with target_memory_bytes={li["budget"]} held a batch of {len(cl)} objects '
+                                                                          f'({tot} bytes) in memory before writing it')
+                        break
                 if m_calls != r_calls:
                     self.res.diffs.append((self.step, 'calls', m_calls, f'{r_calls} (objects arrived in the order {show_nats(li["stream"])}, budget {li["budget"]})', 'import'))
         rec['real_out'] = real_out
@@ -901,7 +908,7 @@ def _oracle_modes(self, rc, op, pre, post, real_out):
     if real_out.startswith('raised'):
         # an operation of a fault-free history raised: a failing input for the map property and for the property that
         # specifies this very operation
-        owners = {'delete': ['C11'], 'repack': ['C11', 'C10'], 'repackOne': ['C11', 'C10'], 'import': ['C14'], 'packAll': ['C10', 'C16'],
+        owners = {'delete': ['C11'], 'repack': ['C11', 'C10'], 'repackOne': ['C11', 'C10'], 'import': ['C14', 'C16'], 'packAll': ['C10', 'C16'],
                   'clean': ['C16'], 'addLoose': ['C01', 'C09'], 'addPacked': ['C01', 'C09', 'C13']}
         for prop in ['C02'] + owners.get(kind, []):
             self._fail(prop, f'op-raised-{kind}', f'{kind} raised: {real_out} ({json.dumps({k: v for k, v in op.items() if k in ("ks", "cs", "c", "mode", "p")})})')
